@@ -360,6 +360,53 @@ class Gen:
                 cases.append(("ok", version, [r], self.frame("all-%d" % n, action, reqs[0][1])))
         return cases
 
+    def stratum_required_sequences(self, n_actions=8):
+        """for some actions with several required properties: one CALL per missing property, back to back (the endpoint
+        classes differ, the process and whatever it caches do not) -- every one is refused with the mapped code, none
+        reaches the handler; likewise handler results missing one required property after the other"""
+        cases = []
+        for version in ("1.6", "2.0.1"):
+            done = 0
+            for action in sorted(self.actions[version]):
+                reqs = self.instances(version, action, "req")
+                resps = self.instances(version, action, "resp")
+                valid_reqs = [i for i in reqs if not i[2] and isinstance(i[1], dict)]
+                valid_resps = [i for i in resps if not i[2] and isinstance(i[1], dict)]
+                miss_req = [i for i in reqs if len(i[2]) == 1 and i[2][0][1].startswith("required:") and isinstance(i[1], dict)]
+                miss_res = [i for i in resps if len(i[2]) == 1 and i[2][0][1].startswith("required:") and isinstance(i[1], dict)
+                            and "null" not in json.dumps(i[1])]
+                if len(miss_req) < 2 or not valid_reqs or not valid_resps:
+                    continue
+                done += 1
+                if done > n_actions:
+                    break
+                for b in miss_req + miss_req[:1]:
+                    cases.append(("bad-req", version, [self.route(action, ("ret", snake(valid_resps[0][1])), after=("ret",))],
+                                  self.frame("rq-%d" % len(cases), action, b[1]), {"tags": b[2]}))
+                for b in miss_res + miss_res[:1]:
+                    cases.append(("bad-res", version, [self.route(action, ("ret", snake(b[1])), after=("ret",))],
+                                  self.frame("rs-%d" % len(cases), action, valid_reqs[0][1]), {"tags": b[2]}))
+        return cases
+
+    def stratum_cross_version(self):
+        """actions both versions define: an ordinary exchange in one version, then the same action on an endpoint of the
+        OTHER version with payloads written for the first one -- and the other way round (what one version's schema
+        allows must not leak into the other's, whichever is used first in the process)"""
+        cases = []
+        both = sorted(set(self.actions["1.6"]) & set(self.actions["2.0.1"]))
+        for n, action in enumerate(both):
+            first, second = ("2.0.1", "1.6") if n % 2 == 0 else ("1.6", "2.0.1")
+            r1 = [i for i in self.instances(first, action, "req") if not i[2] and isinstance(i[1], dict)]
+            s1 = [i for i in self.instances(first, action, "resp") if not i[2] and isinstance(i[1], dict)]
+            s2 = [i for i in self.instances(second, action, "resp") if not i[2] and isinstance(i[1], dict)]
+            if not r1 or not s1 or not s2:
+                continue
+            cases.append(("ok", first, [self.route(action, ("ret", snake(s1[0][1])))], self.frame("x-%d" % len(cases), action, r1[0][1])))
+            for inst in r1[:5:2]:
+                cases.append(("cross", second, [self.route(action, ("ret", snake(s2[0][1])))],
+                              self.frame("x-%d" % len(cases), action, inst[1])))
+        return cases
+
     def all_cases(self):
         full = self.tier == "thorough"
         cases = self.stratum_handled("all" if full else 14)
